@@ -15,7 +15,7 @@ pub static DEF: CheckDef = CheckDef {
     replay,
     rule: "the structured programs of C04 (interrupt handlers, timer/LCD interrupts, EI;HALT, STOP, DMA, RAM code, far calls, DI sections) are run in three stepping modes - interpreter build stepped with update() (one instruction per step), interpreter build block-stepped, jit build block-stepped - in lock-step with the reference machine (models::sm83 + models::irq on a twin bus), which computes for every step how many machine cycles the CPU consumed. After every step: the clocks delivered at the MemoryAreas boundary (hook: running total) must equal 4 x (machine cycles of the instruction(s) executed + 5 carried over from a dispatch in the previous step), exactly 4 for a halted/stopped step, and never less than 4; every device must have received them (timer divider phase, LCD mode/dot/line, DMA progress equal to the twin's); the interrupt check must come after the catch-up (PC, SP, IF, IME, run state equal to the reference, which samples after delivering); the 5 dispatch cycles must be pending (Registers.cycles) and last_block_cycle_length must equal the cycles delivered in block modes. Four hand-written corner programs (a dispatch cancelled by its own push with SP = 0x0000, a dispatch whose push lands on IE without cancelling, one landing on IF, a wake-up out of HALT with SP wrapping) run the same way. At the end of every run Core::run_frame() is called: it must return, having delivered at most 2 x 70224 clocks plus one block, and leave the LCD outside mode 1 just after a vertical blank. Non-trivial = run containing a dispatch, a suspended stretch and a multi-cycle block (measured); distinct by hash of (program, mode).",
     assumptions: &[
-        "models::sm83 (cycle counts incl. taken/not-taken), models::irq; block extent = up to the next terminator or the 16 KiB ROM boundary; EI at a block end takes effect at the block boundary in block modes",
+        "models::sm83 (cycle counts incl. taken/not-taken), models::irq; a block is a whole number of instructions ending at the next terminator at the latest (where the emulator ends one earlier - the 16 KiB ROM boundary today - is its own choice: the reference consumes exactly the time the emulator delivered); EI at a block end takes effect at the block boundary in block modes",
         "a run ends where the reference meets an undefined opcode or HALT with an enabled request pending (counted)",
         "run_frame() is called in a forked child with a 4 s alarm (a frame takes about a millisecond), so a call that never returns is reported as such; device positions are also checked in closed form (divider = clocks since the last DIV write, LCD line/mode = models::lcd at the delivered total), independently of the twin",
     ],
@@ -114,8 +114,18 @@ fn run_rom(rom: &crate::rom::RomImage, mode: u8, steps: u32, st: &mut Stats) -> 
     let mut total: u64 = 0;
     let mut div_base: u64 = 0;
     for step in 0..steps {
-        let info = if mode == 0 { r.step_instruction() } else { r.step_block(100_000) };
-        if info.out_of_domain.is_some() {
+        // instruction-stepped: the reference goes first (it knows where the domain ends);
+        // block-stepped: the emulator goes first and the reference consumes the same time,
+        // so that where a block ends short of a terminator is the emulator's choice
+        let mut info = None;
+        if mode == 0 {
+            let i0 = r.step_instruction();
+            if i0.out_of_domain.is_some() {
+                st.left = true;
+                break;
+            }
+            info = Some(i0);
+        } else if r.next_out_of_domain().is_some() {
             st.left = true;
             break;
         }
@@ -132,9 +142,25 @@ fn run_rom(rom: &crate::rom::RomImage, mode: u8, steps: u32, st: &mut Stats) -> 
             }
         });
         if let Err(msg) = res {
+            if mode != 0 && (msg.contains("Invalid OP") || msg.contains("TRIED TO EXECUTE")) {
+                // the block ran into an undefined opcode / out of the executable regions
+                st.left = true;
+                break;
+            }
             return Err(Fail::new("panic", format!("step {} at {:#06x}: the emulator panicked: {}", step, pc0, msg)));
         }
         let delta = a.clocks_total().wrapping_sub(before);
+        let info = match info {
+            Some(i0) => i0,
+            None => {
+                let i1 = r.step_block_as(delta);
+                if i1.out_of_domain.is_some() {
+                    st.left = true;
+                    break;
+                }
+                i1
+            }
+        };
         st.steps = step + 1;
         let what = if info.executed { format!("block/instruction at {:#06x}, last opcode {:#04x}, {} machine cycles", pc0, info.opcode, info.instr_cycles) } else { format!("suspended at {:#06x}", pc0) };
         if delta < 4 {
